@@ -1261,7 +1261,7 @@ Section NI.
       destruct (lookup_fn c1 name false) as [[fnv|] b] eqn:L.
       2:{ destruct b; injection E1 as <- <-; unclean K1. }
       destruct (lookup_fn_in _ _ _ _ _ L) as (fr & fs & I1 & I2 & I3).
-      destruct (HF fr fs name fnv I1 I2 I3) as [Hni Hpd].
+      destruct (HF fr fs name fnv I1 I2 I3) as (Hni & Hpd & _).
       unfold call_tail in E1, E2.
       destruct (length args <? length (f_params fnv))%nat; [injection E1 as <- <-; unclean K1|].
       destruct (_ && _); [injection E1 as <- <-; unclean K1|].
